@@ -287,13 +287,10 @@ class EnvHandle(object):
         ex = self.env.exchange
         snap = {}
         for c in self.all_contracts():
-            b = ex._books.get(c)
-            if b is None:
-                snap[c.symbol] = (NAN, NAN)
-            else:
-                snap[c.symbol] = (b.bid_price, b.ask_price)
-        rb = ex._books.get(Rate(world.RATE_NAME))
-        snap["__rate__"] = (rb.bid_price, rb.ask_price) if rb is not None else (NAN, NAN)
+            b = ex[c]           # public lookup (concrete contracts only: no clock involved)
+            snap[c.symbol] = (b.bid_price, b.ask_price)
+        rb = ex[Rate(world.RATE_NAME)]
+        snap["__rate__"] = (rb.bid_price, rb.ask_price)
         return snap
 
     def holdings(self):
@@ -411,7 +408,7 @@ def rebal_record(r):
                            "px": float(t.acq_price), "comm": float(t.cost_of_commissions), "spread": float(t.cost_of_spread),
                            "time": t.time})
     return {"time": r.time, "alloc": {getattr(k, "symbol", str(k)): float(v) for k, v in r.allocation.items()},
-            "measure": type(r.allocation).__name__, "interest": (float(r.profit_on_idle_cash) if r.profit_on_idle_cash is not Ellipsis else None),
+            "measure": type(r.allocation).__name__, "interest": (float(r.profit_on_idle_cash) if not (r.profit_on_idle_cash is Ellipsis or r.profit_on_idle_cash is None) else None),
             "pre": ctx(r.context_pre), "post": ctx(r.context_post), "trades": trades}
 
 
@@ -470,14 +467,14 @@ class EpiSim(object):
             site, chain = _raise_site(e.__traceback__)
             rec.update({"exc": type(e).__name__, "msg": str(e)[:300], "site": site})
             rec["end_seq"] = self.sink.next_seq()
-            h.episodes.append({"reset": rec, "steps": [], "failed": True})
+            h.episodes.append({"reset": rec, "steps": [], "failed": True, "ended": True})
             return
         self.wrap_rebalance(h)
         hq, hm = h.holdings()
         rec.update({"obs": canon(obs) if not isinstance(obs, IState) else "state", "now": h.env.now(), "clock": AbstractContract.now,
-                    "done": bool(h.env._done), "books": h.books(), "hold": hq, "nlv": h.nlv(), "hist": h.histories(),
+                    "done": bool(getattr(h.env, "_done", False)), "books": h.books(), "hold": hq, "nlv": h.nlv(), "hist": h.histories(),
                     "end_seq": self.sink.next_seq()})
-        h.episodes.append({"reset": rec, "steps": [], "failed": False})
+        h.episodes.append({"reset": rec, "steps": [], "failed": False, "ended": bool(rec["done"])})
         self.stats["episodes"] += 1
 
     def do_step(self, op):
@@ -492,7 +489,7 @@ class EpiSim(object):
         hold_before = h.holdings()[0]
         rec = {"seq": self.sink.next_seq(), "kind": "step", "env": h.tag, "action": canon(op["action"]), "exc": None,
                "k": len(ep["steps"]) if ep else None, "n_rec_before": n_before, "hold_before": hold_before,
-               "nlv_before": h.nlv(), "done_before": bool(h.env._done)}
+               "nlv_before": h.nlv(), "done_before": bool(ep["ended"]) if ep is not None else False}
         self.api.append(rec)
         self.sink.records.append(rec)
         self.stats["steps"] += 1
@@ -508,13 +505,15 @@ class EpiSim(object):
                     "done": (bool(done) if done is not None else None),
                     "info_keys": sorted(info.keys()) if isinstance(info, dict) else None,
                     "now": h.env.now(), "clock": AbstractContract.now, "hold": hq, "margins": hm, "nlv": h.nlv(),
-                    "n_rec": len(h.env.broker.track_record), "books": h.books(), "env_done": bool(h.env._done),
+                    "n_rec": len(h.env.broker.track_record), "books": h.books(), "env_done": bool(getattr(h.env, "_done", False)),
                     "nlv_default": h.nlv_default(), "chains": h.chains(), "hist": h.histories(),
                     "end_seq": self.sink.next_seq()})
         if isinstance(info, dict) and "_rebalancing" in info:
             rec["info_rebalancing_time"] = info["_rebalancing"].time
         if ep is not None:
             ep["steps"].append(rec)
+            if rec.get("done") or rec.get("exc") == "EndOfEpisodeError":
+                ep["ended"] = True
 
     def run(self):
         self.build()
